@@ -28,6 +28,7 @@ def run(rep):
     import c09, c16
     rep.guard(c09.f4, rep, dev)     # an error raised after the raw active-fiber pointer was switched is reported on another fiber in builds that read the pointer
     rep.guard(c16.g2, rep, dev)     # the paced and the stress collector run at the same point of an allocation (before the new object is registered)
+    rep.guard(c01.r1, rep, dev)     # collections happen at different points in the build configurations: an untraced edge shows up as different behaviour between them
 
 
 def features_of(snip):
@@ -176,7 +177,7 @@ def v1(rep, worlds):
 
 
 def v2(rep, w):
-    r = rep.rule('V2', 'no debug-only assertion depends on state that persists across runs', floor=0)
+    r = rep.rule('V2', 'no debug-only assertion depends on state that persists across runs or caps the step count of a data-dependent loop', floor=0)
     persistent = {'modules', 'chunks', 'core_chunks', 'string_store', 'class_store', 'range_cache', 'string_class'}
     n = 0
     for f in sorted(w.fns.values(), key=lambda x: x.path):
@@ -202,8 +203,57 @@ def v2(rep, w):
                 hit = fields & persistent
                 r.check(not hit, '%s / debug_assert' % f.path, 'a debug_assert! reads %s, which persists across runs of a reused interpreter: '
                         'checked builds panic where optimised builds continue' % sorted(hit), f.loc(s.get('sp')))
+                # a cap on the number of rounds of a loop: `count <= CONST` where count is stepped inside a cycle. How often a loop of the
+                # interpreter goes round is decided by program data (probe chains, element counts), so the checked build panics on inputs
+                # the optimised build handles.
+                cnt = loop_counter_cap(f, arm | {t.get('else', bi)})
+                r.check(cnt is None, '%s / debug_assert on a step count' % f.path, 'a debug_assert! caps a loop counter at the constant %s: the number of rounds depends on the '
+                        'data a program builds, so the checked build panics where the optimised build carries on' % (cnt,), f.loc(s.get('sp')))
     r.note('%d debug_assert sites in the workspace' % n)
     r.ok('census of debug_assert!/debug_assert_eq! sites: %d' % n)
+
+
+def loop_counter_cap(f, arm):
+    """the constant c when a block of `arm` branches on `x <cmp> c` and x is a local stepped by a constant inside a cycle; else None"""
+    defs = {}
+    for bi in f.normal_blocks():
+        for s in f.blocks[bi]['s']:
+            d = s.get('d')
+            if d and not d.get('p'):
+                defs.setdefault(d['l'], []).append((bi, s['r']))
+
+    def in_cycle(bi):
+        return any(bi in f.reachable_blocks(x) for x in f.succs()[bi])
+
+    def stepped(l, depth=0):
+        if depth > 4:
+            return False
+        for bi, rr in defs.get(l, ()):
+            if rr.get('rv') == 'use' and op_place(rr['o']):
+                pl = op_place(rr['o'])
+                if pl.get('p') and pl['p'][0] != '*' and len(defs.get(pl['l'], ())) == 1:
+                    bi2, r2 = defs[pl['l']][0]
+                    if r2.get('rv') == 'bin' and r2['op'].startswith(('Add', 'Sub')) and op_const(r2['b']) is not None and op_place(r2['a']) and in_cycle(bi2):
+                        src = op_place(r2['a'])['l']
+                        if src == l or any(rr3.get('rv') == 'use' and op_place(rr3['o']) and op_place(rr3['o'])['l'] == l for _, rr3 in defs.get(src, ())):
+                            return True
+                elif not pl.get('p') and pl['l'] != l and stepped(pl['l'], depth + 1):
+                    return True
+            if rr.get('rv') == 'bin' and rr['op'] in ('Add', 'Sub', 'AddUnchecked') and op_const(rr['b']) is not None and op_place(rr['a']) and in_cycle(bi):
+                if op_place(rr['a'])['l'] == l:
+                    return True
+        return False
+    for b in sorted(arm):
+        t = f.blocks[b]['t']
+        if t['t'] != 'switch' or op_place(t['d']) is None:
+            continue
+        for s in f.blocks[b]['s']:
+            rr = s.get('r', {})
+            if s.get('d', {}).get('l') == op_place(t['d'])['l'] and rr.get('rv') == 'bin' and rr['op'] in ('Le', 'Lt', 'Ge', 'Gt', 'Eq', 'Ne'):
+                for x, k in ((rr['a'], rr['b']), (rr['b'], rr['a'])):
+                    if op_const(k) is not None and op_place(x) is not None and stepped(op_place(x)['l']):
+                        return op_const(k).get('v')
+    return None
 
 
 def api(w):
